@@ -394,6 +394,9 @@ pub struct N3Out {
     pub param: (u8, u16, Vec<u8>, bool, u16),
     /// consecutive next-owner hashes ascend under OwnerHash's Ord
     pub ord_ok: bool,
+    /// `Nsec3::opt_out()` of every record, `Nsec3param::opt_out_flag()` of the NSEC3PARAM
+    pub optbits: Vec<bool>,
+    pub param_opt: bool,
 }
 
 pub fn run_nsec3(recs: Vec<SRecord>, apex: &SName, assume: bool, optout: &str,
@@ -407,14 +410,21 @@ pub fn run_nsec3(recs: Vec<SRecord>, apex: &SName, assume: bool, optout: &str,
 /// methods of `setters` in this order.
 pub fn nsec3_cfg(assume: bool, optout: &str, salt: &[u8], iters: u16, setters: Option<Vec<String>>,
                  ctor: &str, ttlv: u32) -> Result<GenerateNsec3Config<Bytes, DefaultSorter>, String> {
+    nsec3_cfg_flags(assume, optout, salt, iters, setters, ctor, ttlv, 0)
+}
+
+/// `flags0`: the Flags octet handed to `Nsec3param::new`.
+#[allow(clippy::too_many_arguments)]
+pub fn nsec3_cfg_flags(assume: bool, optout: &str, salt: &[u8], iters: u16, setters: Option<Vec<String>>,
+                       ctor: &str, ttlv: u32, flags0: u8) -> Result<GenerateNsec3Config<Bytes, DefaultSorter>, String> {
     let mut cfg: GenerateNsec3Config<Bytes, DefaultSorter> = if ctor == "default" {
-        if !salt.is_empty() || iters != 0 {
+        if !salt.is_empty() || iters != 0 || flags0 != 0 {
             return Err("default() with other parameters".into());
         }
         GenerateNsec3Config::default()
     } else {
         let salt = Nsec3Salt::from_octets(Bytes::copy_from_slice(salt)).map_err(|e| format!("{e}"))?;
-        GenerateNsec3Config::new(Nsec3param::new(Nsec3HashAlgorithm::SHA1, 0, iters, salt))
+        GenerateNsec3Config::new(Nsec3param::new(Nsec3HashAlgorithm::SHA1, flags0, iters, salt))
     };
     let order: Vec<String> = match setters {
         Some(v) => v,
@@ -457,6 +467,7 @@ fn n3_rows(nsec3s: &[Nsec3Rec], param: &Record<SName, Nsec3param<Bytes>>, apex: 
     let mut v = vec![];
     let mut apex_ok = true;
     let mut ord_ok = true;
+    let optbits: Vec<bool> = nsec3s.iter().map(|r| r.data().opt_out()).collect();
     for (i, r) in nsec3s.iter().enumerate() {
         let first = r.owner().iter_labels().next().unwrap();
         let text = String::from_utf8_lossy(first.as_slice()).to_string();
@@ -475,7 +486,7 @@ fn n3_rows(nsec3s: &[Nsec3Rec], param: &Record<SName, Nsec3param<Bytes>>, apex: 
                 r.ttl().as_secs()));
     }
     let p = param.data();
-    Ok(N3Out { recs: v, param_ttl: param.ttl().as_secs(), apex_ok, ord_ok,
+    Ok(N3Out { recs: v, param_ttl: param.ttl().as_secs(), apex_ok, ord_ok, optbits, param_opt: p.opt_out_flag(),
                param: (p.flags(), p.iterations(), p.salt().as_slice().to_vec(),
                        param.owner().name_eq(apex), param.class().to_int()) })
 }
@@ -542,9 +553,17 @@ pub fn nsec3_case(input: &Value) -> Value {
     let setters = input.get("setters").and_then(|v| v.as_array()).map(|a| {
         a.iter().map(|x| x.as_str().unwrap_or("").to_string()).collect::<Vec<_>>()
     });
-    let cfg = match nsec3_cfg(input["assume"] == true, input["optout"].as_str().unwrap_or("none"), &salt, iters,
+    let flags0 = input["flags0"].as_u64().unwrap_or(0);
+    if flags0 > 255 {
+        return json!({"bad_case": "flags0"});
+    }
+    // (Flags octet, Opt-Out bit) pairs the specification admits on the NSEC3PARAM RR
+    let pallowed: Option<Vec<(u64, bool)>> = input.get("paramflags").and_then(|v| v.as_array()).map(|a| {
+        a.iter().map(|x| (x["f"].as_u64().unwrap_or(999), x["opt"] == true)).collect()
+    });
+    let cfg = match nsec3_cfg_flags(input["assume"] == true, input["optout"].as_str().unwrap_or("none"), &salt, iters,
                               setters, input["ctor"].as_str().unwrap_or("new"),
-                              input["ttlv"].as_u64().unwrap_or(0) as u32) {
+                              input["ttlv"].as_u64().unwrap_or(0) as u32, flags0 as u8) {
         Ok(c) => c,
         Err(e) => return json!({"bad_case": e}),
     };
@@ -568,7 +587,7 @@ pub fn nsec3_case(input: &Value) -> Value {
                 Err(_) => json!({"err": true}),
                 Ok(out) => match convert_nsec3s(conv, &out.nsec3s, &out.nsec3param)
                     .and_then(|(rs, p)| n3_rows(&rs, &p, &apex)) {
-                    Ok(rows) => nsec3_obs(&rows, &names, &hashes, &salt, iters),
+                    Ok(rows) => nsec3_obs(&rows, &names, &hashes, &salt, iters, pallowed.as_deref()),
                     Err(e) => json!({"conversion_failed": e}),
                 },
             };
@@ -578,7 +597,8 @@ pub fn nsec3_case(input: &Value) -> Value {
     agree(obs)
 }
 
-fn nsec3_obs(out: &N3Out, names: &[Value], hashes: &[Vec<u8>], salt: &[u8], iters: u16) -> Value {
+fn nsec3_obs(out: &N3Out, names: &[Value], hashes: &[Vec<u8>], salt: &[u8], iters: u16,
+             pallowed: Option<&[(u64, bool)]>) -> Value {
     let mut entries: Vec<(usize, Value)> = vec![];
     let mut unknown = vec![];
     for r in &out.recs {
@@ -609,13 +629,21 @@ fn nsec3_obs(out: &N3Out, names: &[Value], hashes: &[Vec<u8>], salt: &[u8], iter
     // the configured iterations and salt
     let params_ok = out.recs.iter().all(|r| r.4 == iters && r.5 == salt)
         && out.param.1 == iters && out.param.2 == salt && out.param.3 && out.param.4 == 1;
-    if flags.len() != 1 || ttls.len() != 1 || !params_ok {
+    let opts = out.optbits.iter().collect::<std::collections::BTreeSet<_>>();
+    if flags.len() != 1 || ttls.len() != 1 || !params_ok || opts.len() != 1 {
         return json!({"records_differ_in_flags_ttl_or_params": true});
     }
     entries.sort_by_key(|e| e.0);
-    json!({"entries": entries.into_iter().map(|e| e.1).collect::<Vec<_>>(), "linked": linked,
+    let mut o = json!({"entries": entries.into_iter().map(|e| e.1).collect::<Vec<_>>(), "linked": linked,
            "flags": flags.into_iter().next().unwrap(), "ttl": ttls.into_iter().next().unwrap(),
-           "paramttl": out.param_ttl})
+           "paramttl": out.param_ttl});
+    if let Some(allowed) = pallowed {
+        // what every NSEC3 RR's opt_out() says; the NSEC3PARAM RR's Flags
+        // octet with its opt_out_flag() is one of the admitted pairs
+        o["optbit"] = json!(**opts.iter().next().unwrap());
+        o["paramflags_ok"] = json!(allowed.contains(&(out.param.0 as u64, out.param_opt)));
+    }
+    o
 }
 
 fn base32hex_lower(b: &[u8]) -> Vec<u8> {
@@ -722,6 +750,68 @@ pub fn n3hash_case(input: &Value) -> Value {
 
 /// Which octet strings are salts (RFC 5155 3.1.5: at most 255 octets):
 /// every constructor gives the same answer.
+/// The accessor pair and the setter on one Flags octet, through every route
+/// to an `Nsec3param` / `Nsec3` that carries it.
+pub fn n3flags_case(input: &Value) -> Value {
+    use octseq::OctetsFrom;
+    let f = match input["flags"].as_u64() {
+        Some(f) if f <= 255 => f as u8,
+        _ => return json!({"bad_case": true}),
+    };
+    let owner = name_of(&json!([[101, 120]]));
+    let salt = || Nsec3Salt::from_octets(Bytes::from_static(&[0xab])).expect("salt");
+    let p0: Nsec3param<Bytes> = Nsec3param::new(Nsec3HashAlgorithm::SHA1, f, 1, salt());
+    let n0: Nsec3<Bytes> = Nsec3::new(Nsec3HashAlgorithm::SHA1, f, 1, salt(),
+                                      OwnerHash::from_octets(Bytes::from(vec![7u8; 20])).expect("hash"),
+                                      RtypeBitmap::<Bytes>::builder().finalize());
+    let mut ps: Vec<(&str, Nsec3param<Bytes>)> = vec![("new", p0.clone())];
+    let mut ns: Vec<(&str, Nsec3<Bytes>)> = vec![("new", n0.clone())];
+    let prec = Record::new(owner.clone(), Class::IN, Ttl::from_secs(5), p0.clone());
+    let nrec = Record::new(owner.clone(), Class::IN, Ttl::from_secs(5), n0.clone());
+    match via_wire::<Nsec3param<Bytes>, Nsec3param<Bytes>>(std::slice::from_ref(&prec), Ok) {
+        Ok(v) if v.len() == 1 => ps.push(("wire", v[0].data().clone())),
+        _ => return json!({"wire_failed": "nsec3param"}),
+    }
+    match via_wire::<Nsec3<Bytes>, Nsec3<Bytes>>(std::slice::from_ref(&nrec), Ok) {
+        Ok(v) if v.len() == 1 => ns.push(("wire", v[0].data().clone())),
+        _ => return json!({"wire_failed": "nsec3"}),
+    }
+    match Nsec3param::<Vec<u8>>::try_octets_from(p0.clone()).ok()
+        .and_then(|v| Nsec3param::<Bytes>::try_octets_from(v).ok()) {
+        Some(p) => ps.push(("octets", p)),
+        None => return json!({"octets_failed": "nsec3param"}),
+    }
+    match Nsec3::<Vec<u8>>::try_octets_from(n0.clone()).ok()
+        .and_then(|v| Nsec3::<Bytes>::try_octets_from(v).ok()) {
+        Some(n) => ns.push(("octets", n)),
+        None => return json!({"octets_failed": "nsec3"}),
+    }
+    match serde_json::to_value(&p0).ok().and_then(|v| serde_json::from_value::<Nsec3param<Bytes>>(v).ok()) {
+        Some(p) => ps.push(("serde", p)),
+        None => return json!({"serde_failed": "nsec3param"}),
+    }
+    // as the record data of a generated chain hands it back (ZoneRecordData)
+    if let ZoneRecordData::Nsec3param(p) = ZoneRecordData::<Bytes, SName>::from(p0.clone()) {
+        ps.push(("zonedata", p));
+    }
+    if let ZoneRecordData::Nsec3(n) = ZoneRecordData::<Bytes, SName>::from(n0.clone()) {
+        ns.push(("zonedata", n));
+    }
+    let mut obs: Vec<(String, Value)> = vec![];
+    for (route, p) in &ps {
+        let mut q = p.clone();
+        q.set_opt_out_flag();
+        let cfg: GenerateNsec3Config<Bytes, DefaultSorter> = GenerateNsec3Config::new(p.clone()).with_opt_out();
+        for (nroute, n) in &ns {
+            obs.push((format!("{route}/{nroute}"),
+                      json!({"flags": if p.flags() == n.flags() { json!(p.flags()) } else { json!("differ") },
+                             "param_opt": p.opt_out_flag(), "nsec3_opt": n.opt_out(),
+                             "set": q.flags(), "set_opt": q.opt_out_flag(), "cfg": cfg.params.flags()})));
+        }
+    }
+    agree(obs)
+}
+
 pub fn salt_case(input: &Value) -> Value {
     use std::str::FromStr;
     let salt: Vec<u8> = (0..input["len"].as_u64().unwrap_or(0)).map(|i| (i * 13 % 256) as u8).collect();
@@ -1108,8 +1198,11 @@ pub fn record(out: &str, seed: u64, zones: u64, max_names: u64) {
             setters.swap(i, rng.below(i as u64 + 1) as usize);
         }
         let ctor3 = if salt.is_empty() && iters == 0 { ctor } else { "new" };
+        // the Flags octet handed to Nsec3param::new: any value (the
+        // setters only ever add the Opt-Out bit)
+        let flags0: u8 = if ctor3 == "default" || rng.chance(1, 3) { 0 } else { rng.below(256) as u8 };
         let n3 = match catch_unwind(AssertUnwindSafe(|| {
-            let cfg = nsec3_cfg(assume, optout, &salt, iters, Some(setters.clone()), ctor3, ttlv)?;
+            let cfg = nsec3_cfg_flags(assume, optout, &salt, iters, Some(setters.clone()), ctor3, ttlv, flags0)?;
             let out = drive(&sorted, route, |it| generate_nsec3s(&apex_name, it, &cfg)).map_err(|e| format!("{e}"))?;
             n3_rows(&out.nsec3s, &out.nsec3param, &apex_name)
         })) {
@@ -1177,13 +1270,15 @@ pub fn record(out: &str, seed: u64, zones: u64, max_names: u64) {
             Ok(o) => json!({"chain": o.recs.iter().map(|r| json!({"owner": lookup(&r.0), "next": lookup(&r.1), "types": r.2})).collect::<Vec<_>>(),
                             "flags": o.recs.iter().map(|r| r.3).max().unwrap_or(0),
                             "flagsmin": o.recs.iter().map(|r| r.3).min().unwrap_or(0),
+                            "opt_all": o.optbits.iter().all(|b| *b), "opt_any": o.optbits.iter().any(|b| *b),
+                            "pflags": o.param.0, "popt": o.param_opt,
                             "ttl": o.recs.first().map(|r| r.6).unwrap_or(0),
                             "paramttl": o.param_ttl,
                             // every NSEC3 RR and the NSEC3PARAM RR (at the apex, class IN)
                             // carry the configured iterations and salt
                             "params_ok": o.recs.iter().all(|r| r.4 == iters && r.5 == salt) && o.ord_ok && o.apex_ok
                                 && o.param.1 == iters && o.param.2 == salt && o.param.3 && o.param.4 == 1}),
-            Err(e) => json!({"chain": [], "flags": 0, "flagsmin": 0, "ttl": 0, "paramttl": 0, "params_ok": false, "err": e}),
+            Err(e) => json!({"chain": [], "flags": 0, "flagsmin": 0, "opt_all": false, "opt_any": true, "pflags": 999, "popt": false, "ttl": 0, "paramttl": 0, "params_ok": false, "err": e}),
         };
         // probes: absent and present names with a few types
         let mut probes = vec![];
@@ -1199,7 +1294,8 @@ pub fn record(out: &str, seed: u64, zones: u64, max_names: u64) {
             probes.push(json!({"q": jl(&q), "t": *rng.pick(&[1u16, 2, 16, 43, 99])}));
         }
         w.event(json!({"ev": "zone", "apex": jl(&apex), "recs": sorted_j, "assume": assume,
-                       "exclude": optout == "exclude", "optflag": if optout == "none" { 0 } else { 1 },
+                       "flags0": flags0, "n3opt_all": n3j["opt_all"], "n3opt_any": n3j["opt_any"],
+                       "pflags": n3j["pflags"], "popt": n3j["popt"],
                        "soattl": std::cmp::min(soa_ttl, soa_min),
                        "assembly": assembly, "setters": setters, "route": route, "ctor": ctor,
                        "soa": {"ttl": soa_ttl, "min": soa_min}, "salt": jbytes(&salt), "iters": iters,
